@@ -192,10 +192,31 @@ class Ctx:
         unexpected = [a for a in set(axioms) if a not in ALLOWED_AXIOMS]
         if unexpected:
             raise HarnessError('unexpected axioms under a property theorem: %s' % unexpected)
+        if ok and self.tier == 'thorough' and os.environ.get('VERIF_NO_COQCHK') != '1':
+            self.coqchk(props_v)
         if ok and extract_dir:
             self.build_driver(extract_dir)
         self.extra['build_s'] = round(time.time() - t, 1)
         return ok
+
+    def coqchk(self, props_v, timeout=1500):
+        """Thorough tier: re-check the compiled property file and everything it depends on with
+        the independent checker and record the axioms it reports."""
+        mod = 'MV.' + props_v[:-2].replace('/', '.')
+        t = time.time()
+        r = subprocess.run(['timeout', str(timeout), 'coqchk', '-silent', '-o', '-Q', COQ, 'MV', mod],
+                           capture_output=True, text=True)
+        out = r.stdout + r.stderr
+        axioms = []
+        m = re.search(r'\* Axioms:(.*?)(?:\n\* |\Z)', out, re.S)
+        if m:
+            axioms = [l.strip() for l in m.group(1).split('\n') if l.strip() and '<none>' not in l]
+        self.extra['coqchk'] = {'module': mod, 'exit': r.returncode, 'axioms': axioms, 'wall_s': round(time.time() - t, 1)}
+        if r.returncode != 0:
+            self.broken.append({'obligation': 'coqchk ' + mod, 'detail': out[-2000:]})
+        unexpected = [a for a in axioms if a not in ALLOWED_AXIOMS]
+        if unexpected:
+            raise HarnessError('coqchk reports axioms: %s' % unexpected)
 
     def build_driver(self, extract_dir):
         d = os.path.join(VERIF, 'extract', extract_dir)
